@@ -1,0 +1,8 @@
+//go:build !verif
+
+// Package verifhook provides yield points for the external verification harness.
+// Without the `verif` build tag every hook is an empty, inlinable function.
+package verifhook
+
+// Yield marks a scheduling/observation point. It does nothing unless built with -tags verif.
+func Yield(string, any, int64) {}
